@@ -177,6 +177,20 @@ static std::string run_serialize(const Case &c, vf::Ctx &ctx) {
     if (rtosc_bundle_size(buf, (unsigned)i) != want[i].size() || memcmp(rtosc_bundle_fetch(buf, (unsigned)i), want[i].data(), want[i].size())) return "serialised element " + std::to_string(i) + " differs from the port's reply message";
   }
   if (memcmp(buf, ref.data(), len)) return "serialised bundle bytes differ from the reference encoding";
+  // and back: replaying the serialised bundle into another object gives it the same parameter values
+  {
+    SApp other;
+    other.a = ~app.a; other.b = app.b + 1; other.f = app.f + 1.0f; other.t = !app.t; other.c = (char)((app.c + 1) & 127); other.hidden = 77;
+    std::unique_ptr<char[]> ex(new char[len + 4]);
+    memcpy(ex.get(), buf, len);
+    memset(ex.get() + len, 0, 4);
+    rtosc::RtData d;
+    char loc[128] = {0};
+    d.loc = loc; d.loc_size = sizeof loc;
+    subtree_deserialize(ex.get(), len, &other, &SApp::ports, d);
+    if (other.a != app.a || other.b != app.b || other.f != app.f || other.t != app.t || other.c != app.c) return "subtree_deserialize of the serialised bundle does not reproduce the parameter values";
+    if (other.hidden != 77) return "subtree_deserialize changed a parameter that is not serialised";
+  }
   ctx.count("kind.subtree_serialize");
   ctx.nontriv(vf::fnv(ref));
   return "";
